@@ -44,6 +44,10 @@ def canonicalHeaderKey (s : Str) : Str :=
 /-- TrimmedCSVCanonicalSeq -/
 def trimmedCSVCanonical (s : Str) : List Str := (trimmedCSV s).map canonicalHeaderKey
 
+/-- fieldNameSeq: the members of a list of field names (Vary): split at every comma — a field name is a token,
+    there is no quoted-string that a comma could be inside of — trimmed, empty members dropped -/
+def fieldNames (s : Str) : List Str := ((splitOnComma s []).map trimString).filter (!·.isEmpty)
+
 /-! ### quoted-string -/
 
 def validQDText (c : Char) : Bool :=
